@@ -80,6 +80,7 @@ requires the type information from the compiled sources.`, pkg.PkgPath, pkg.Erro
 			files.sources[name] = struct{}{}
 		}
 		for _, file := range pkg.Syntax {
+			files.enter(file)
 			for _, decl := range file.Decls {
 				if genDecl, ok := decl.(*ast.GenDecl); ok {
 					converters, err := parseGenDecl(files, pkg.Types, genDecl)
@@ -95,22 +96,28 @@ requires the type information from the compiled sources.`, pkg.PkgPath, pkg.Erro
 	return rawConverters, nil
 }
 
-// packageFiles is the file set of a package together with the names of its Go source files.
+// packageFiles is the file set of a package together with the name of the source file whose
+// declarations are being parsed.
 type packageFiles struct {
 	*token.FileSet
 	sources map[string]struct{}
+	current string
 }
 
-// declaringFile returns the file that holds the declaration at pos. A //line directive in a
-// source file of the package (a file produced from a template) does not move it. The go
-// command may hand out preprocessed copies instead of the source files (cgo, -cover); there
-// the //line directives are what names the source file.
-func (f *packageFiles) declaringFile(pos token.Pos) string {
-	physical := f.PositionFor(pos, false).Filename
-	if _, ok := f.sources[physical]; ok {
-		return physical
+// enter determines the source file of a parsed file. A //line directive inside a source file
+// of the package (a file produced from a template) does not rename it. The go command may
+// hand out preprocessed copies instead of the source files (cgo, -cover); those start with
+// a //line directive that names the source file.
+func (f *packageFiles) enter(file *ast.File) {
+	f.current = f.PositionFor(file.Package, false).Filename
+	if _, ok := f.sources[f.current]; !ok {
+		f.current = f.Position(file.Package).Filename
 	}
-	return f.Position(pos).Filename
+}
+
+// declaringFile returns the source file that holds the declarations being parsed.
+func (f *packageFiles) declaringFile() string {
+	return f.current
 }
 
 func parseFunctions(fset *packageFiles, pkg *types.Package, decl *ast.GenDecl, comments string) ([]config.RawConverter, error) {
@@ -137,7 +144,7 @@ func parseFunctions(fset *packageFiles, pkg *types.Package, decl *ast.GenDecl, c
 	}
 
 	converter := config.RawConverter{
-		FileName:    fset.declaringFile(decl.Pos()),
+		FileName:    fset.declaringFile(),
 		Converter:   converterLines,
 		Methods:     result,
 		PackageName: pkg.Name(),
@@ -202,7 +209,7 @@ func parseInterface(fset *packageFiles, pkg *types.Package, typeSpec *ast.TypeSp
 	}
 	converter := config.RawConverter{
 		InterfaceName: typeName,
-		FileName:      fset.declaringFile(typeSpec.Pos()),
+		FileName:      fset.declaringFile(),
 		Converter:     converterLines,
 		Methods:       methods,
 		PackageName:   pkg.Name(),
